@@ -54,6 +54,11 @@ def enumerate_cases(tier):
     for files in ([a, a], [a, b, a], [a, a, a, b], [e, e], [b, e, b, e], [a, b, b]):
         for fw, fh in (([6.0, 2.0, 3.0, 1.0], [4.5, 1.5, 2.0, 0.75]), ([6.0, 2.0], 3.0), (4.0, [1.0, 2.0, 3.0]), (5.0, 4.0)):
             yield {"kind": "figure", "page": {"nrow": 40}, "figure": {"files": list(files), "fig_width": fw, "fig_height": fh}}
+    # listed paths that are symbolic links into a store whose file names carry another suffix or none: format, bytes and pixel size
+    # belong to the path the user named
+    for files in ([dict(a, link_target="")], [dict(b, link_target=".emf"), dict(a, link_target=".bin")], [dict(e, link_target=".png"), a],
+                  [dict(a, link_target=".jpg"), dict(b, link_target=".png")]):
+        yield {"kind": "figure", "page": {"nrow": 40}, "figure": {"files": list(files), "fig_width": 4.0, "fig_height": [3.0, 2.0]}}
     yield from big_cases(tier)
 
 
